@@ -22,10 +22,10 @@ try:
     rec["suite_green_with_patch"] = ok
     os.makedirs(f"{wt}/tevec/tests", exist_ok=True)
     shutil.copy(f"{src}/demo.rs", f"{wt}/tevec/tests/demo_seed.rs")
-    rc1, out1 = sh("cargo test -p tevec --offline --test demo_seed 2>&1 | tail -30", cwd=wt)
+    rc1, out1 = sh("cargo test -p tevec --offline --features ndarray,vecdeque --test demo_seed 2>&1 | tail -30", cwd=wt)
     rec["demo_fails_with_patch"] = ("FAILED" in out1 or "panicked" in out1) and "error[" not in out1
     sh("git checkout -- .", cwd=wt)
-    rc2, out2 = sh("cargo test -p tevec --offline --test demo_seed 2>&1 | tail -30", cwd=wt)
+    rc2, out2 = sh("cargo test -p tevec --offline --features ndarray,vecdeque --test demo_seed 2>&1 | tail -30", cwd=wt)
     rec["demo_passes_without_patch"] = "test result: ok" in out2 and "FAILED" not in out2
     rec["demo_output_with_patch"] = out1[-600:]
 finally:
@@ -41,7 +41,7 @@ if good:
     meta = json.load(open(f"{src}/meta.json"))
     meta["confirmation"] = rec
     meta["ran"] = ["git apply patch.diff (scratch worktree of /repo HEAD)", "cargo test --workspace --no-fail-fast --offline (green)",
-                   "cargo test -p tevec --offline --test demo_seed (fails with patch, passes without)"]
+                   "cargo test -p tevec --offline --features ndarray,vecdeque --test demo_seed (fails with patch, passes without)"]
     json.dump(meta, open(f"{dst}/meta.json", "w"), indent=1)
     print("STORED", dst)
 else:
